@@ -813,6 +813,183 @@ theorem diff_linear (f1 f2 f3 g1 g2 g3 : Fld) (ax order : Nat) (r : Bool) (α β
   rw [e1, e2, e3]
   exact line_linear _ r order _ α β cells _
 
+/-! ## n-d field level: exactness on every run, periodic axes -/
+
+/-- field-level refinement for a PERIODIC axis: the spec applied to the grid line padded by one
+wrapped cell on each side, read one position further -/
+theorem diff_refines_spec_periodic (f g : Fld) (ax order : Nat) (h : diff f ax order true = .ok g)
+    (hper : periodicAx f ax = true) (i : List Nat) (c : Nat) (hc : c < f.nvdim) (hi : i.getD ax 0 < f.mesh.nAt ax) :
+    (g.data.get i).getD c 0
+      = diffSpec order (f.mesh.cellAt ax) (f.mesh.nAt ax + 2) (valOf (wrap1 (lineCells f ax i c)))
+          (okOf (wrap1 (lineCells f ax i c))) (i.getD ax 0 + 1) := by
+  rw [diff_cell f g ax order true h i c hc]
+  unfold periodicAx at hper
+  rw [hper]
+  unfold diffLine'
+  simp only [if_true]
+  rw [diffRing_refines_spec _ _ _ _ (by rw [lineCells_length]; exact hi), lineCells_length]
+
+/-- **Exactness at field level, first derivative, any mask**: at a valid cell whose own maximal run
+of valid cells along an open axis has at least three cells, if component `c` samples a polynomial
+of degree ≤ 2 of the position along that run (`a0 + b0·x + c0·x²`, `x = x0 + k·h` at the run's
+`k`-th cell, `h` the cell size), the stored derivative is the exact one, `b0 + 2·c0·x`, at the
+first cell of the run, in its interior and at its last cell — whatever the field holds elsewhere. -/
+theorem diff_exact_run_d1 (f g : Fld) (ax : Nat) (h : diff f ax 1 true = .ok g)
+    (hopen : periodicAx f ax = false) (i : List Nat) (c : Nat) (hc : c < f.nvdim) (hi : i.getD ax 0 < f.mesh.nAt ax)
+    (hv : f.valid.line ax i (i.getD ax 0) = true) (hh : f.mesh.cellAt ax ≠ 0)
+    (hlen : 3 ≤ runBefore (fun j => f.valid.line ax i j) (i.getD ax 0)
+        + runFrom (fun j => f.valid.line ax i j) (f.mesh.nAt ax) (i.getD ax 0))
+    (a0 b0 c0 x0 : Rat)
+    (hx : ∀ k, k < runBefore (fun j => f.valid.line ax i j) (i.getD ax 0)
+          + runFrom (fun j => f.valid.line ax i j) (f.mesh.nAt ax) (i.getD ax 0) →
+        (f.data.line ax i (i.getD ax 0 - runBefore (fun j => f.valid.line ax i j) (i.getD ax 0) + k)).getD c 0
+          = a0 + b0 * (x0 + (k : Rat) * f.mesh.cellAt ax) + c0 * (x0 + (k : Rat) * f.mesh.cellAt ax) ^ 2) :
+    (g.data.get i).getD c 0
+      = b0 + 2 * c0 * (x0 + (runBefore (fun j => f.valid.line ax i j) (i.getD ax 0) : Rat) * f.mesh.cellAt ax) := by
+  rw [diff_refines_spec f g ax 1 h hopen i c hc hi]
+  unfold diffSpec
+  beta_reduce
+  rw [hv]
+  simp only [if_true]
+  have hpos : 0 < runFrom (fun j => f.valid.line ax i j) (f.mesh.nAt ax) (i.getD ax 0) := by
+    unfold runFrom
+    have : f.mesh.nAt ax - i.getD ax 0 = (f.mesh.nAt ax - i.getD ax 0 - 1) + 1 := by omega
+    rw [this]; simp only [runFromAux, hv, if_true]; omega
+  rw [dAt_congr 1 _ _ _ _ _ (fun k hk => hx k hk) (by omega)]
+  unfold dAt
+  simp only [if_true]
+  exact d1_exact a0 b0 c0 x0 _ hh _ hlen _ (by omega)
+
+/-- … second derivative on runs of at least four cells: exact for polynomials of degree ≤ 3 -/
+theorem diff_exact_run_d2 (f g : Fld) (ax : Nat) (h : diff f ax 2 true = .ok g)
+    (hopen : periodicAx f ax = false) (i : List Nat) (c : Nat) (hc : c < f.nvdim) (hi : i.getD ax 0 < f.mesh.nAt ax)
+    (hv : f.valid.line ax i (i.getD ax 0) = true) (hh : f.mesh.cellAt ax ≠ 0)
+    (hlen : 4 ≤ runBefore (fun j => f.valid.line ax i j) (i.getD ax 0)
+        + runFrom (fun j => f.valid.line ax i j) (f.mesh.nAt ax) (i.getD ax 0))
+    (a0 b0 c0 d0 x0 : Rat)
+    (hx : ∀ k, k < runBefore (fun j => f.valid.line ax i j) (i.getD ax 0)
+          + runFrom (fun j => f.valid.line ax i j) (f.mesh.nAt ax) (i.getD ax 0) →
+        (f.data.line ax i (i.getD ax 0 - runBefore (fun j => f.valid.line ax i j) (i.getD ax 0) + k)).getD c 0
+          = a0 + b0 * (x0 + (k : Rat) * f.mesh.cellAt ax) + c0 * (x0 + (k : Rat) * f.mesh.cellAt ax) ^ 2
+            + d0 * (x0 + (k : Rat) * f.mesh.cellAt ax) ^ 3) :
+    (g.data.get i).getD c 0
+      = 2 * c0 + 6 * d0 * (x0 + (runBefore (fun j => f.valid.line ax i j) (i.getD ax 0) : Rat) * f.mesh.cellAt ax) := by
+  rw [diff_refines_spec f g ax 2 h hopen i c hc hi]
+  unfold diffSpec
+  beta_reduce
+  rw [hv]
+  simp only [if_true]
+  have hpos : 0 < runFrom (fun j => f.valid.line ax i j) (f.mesh.nAt ax) (i.getD ax 0) := by
+    unfold runFrom
+    have : f.mesh.nAt ax - i.getD ax 0 = (f.mesh.nAt ax - i.getD ax 0 - 1) + 1 := by omega
+    rw [this]; simp only [runFromAux, hv, if_true]; omega
+  rw [dAt_congr 2 _ _ _ _ _ (fun k hk => hx k hk) (by omega)]
+  unfold dAt
+  simp only [show ¬ ((2 : Nat) = 1) by omega, if_false]
+  exact d2_exact a0 b0 c0 d0 x0 _ hh _ hlen _ (by omega)
+
+/-- **Periodic axis at field level**: when the whole grid line through `i` is valid, the stored
+first derivative is the centred difference with wrap-around, for every line length ≥ 1 -/
+theorem diff_periodic_centred_d1 (f g : Fld) (ax : Nat) (h : diff f ax 1 true = .ok g)
+    (hper : periodicAx f ax = true) (i : List Nat) (c : Nat) (hc : c < f.nvdim) (hi : i.getD ax 0 < f.mesh.nAt ax)
+    (hv : ∀ j, j < f.mesh.nAt ax → f.valid.line ax i j = true) :
+    (g.data.get i).getD c 0
+      = ((f.data.line ax i ((i.getD ax 0 + 1) % f.mesh.nAt ax)).getD c 0
+          - (f.data.line ax i ((i.getD ax 0 + f.mesh.nAt ax - 1) % f.mesh.nAt ax)).getD c 0) / (2 * f.mesh.cellAt ax) := by
+  rw [diff_cell f g ax 1 true h i c hc]
+  unfold periodicAx at hper
+  rw [hper]
+  unfold diffLine'
+  simp only [if_true]
+  have e : lineCells f ax i c = (tab (f.mesh.nAt ax) fun j => (f.data.line ax i j).getD c 0).map (·, true) := by
+    unfold lineCells tab
+    rw [List.map_map]
+    apply List.map_congr_left
+    intro j hj
+    simp only [Function.comp, hv j (List.mem_range.mp hj)]
+  rw [e, ring_centred_d1 _ _ _ (by rw [tab_length]; exact hi)]
+  unfold ringVal
+  simp only [tab_length]
+  have hn : 0 < f.mesh.nAt ax := by omega
+  rw [getD_tab _ _ _ _ (Nat.mod_lt _ hn), getD_tab _ _ _ _ (Nat.mod_lt _ hn)]
+
+/-- … first derivative on a run of exactly two cells: exact for polynomials of degree ≤ 1 -/
+theorem diff_exact_run_d1_two (f g : Fld) (ax : Nat) (h : diff f ax 1 true = .ok g)
+    (hopen : periodicAx f ax = false) (i : List Nat) (c : Nat) (hc : c < f.nvdim) (hi : i.getD ax 0 < f.mesh.nAt ax)
+    (hv : f.valid.line ax i (i.getD ax 0) = true) (hh : f.mesh.cellAt ax ≠ 0)
+    (hlen : runBefore (fun j => f.valid.line ax i j) (i.getD ax 0)
+        + runFrom (fun j => f.valid.line ax i j) (f.mesh.nAt ax) (i.getD ax 0) = 2)
+    (a0 b0 x0 : Rat)
+    (hx : ∀ k, k < 2 →
+        (f.data.line ax i (i.getD ax 0 - runBefore (fun j => f.valid.line ax i j) (i.getD ax 0) + k)).getD c 0
+          = a0 + b0 * (x0 + (k : Rat) * f.mesh.cellAt ax)) :
+    (g.data.get i).getD c 0 = b0 := by
+  rw [diff_refines_spec f g ax 1 h hopen i c hc hi]
+  unfold diffSpec
+  beta_reduce
+  rw [hv, hlen]
+  simp only [if_true]
+  have hpos : 0 < runFrom (fun j => f.valid.line ax i j) (f.mesh.nAt ax) (i.getD ax 0) := by
+    unfold runFrom
+    have : f.mesh.nAt ax - i.getD ax 0 = (f.mesh.nAt ax - i.getD ax 0 - 1) + 1 := by omega
+    rw [this]; simp only [runFromAux, hv, if_true]; omega
+  rw [dAt_congr 1 _ _ _ _ _ (fun k hk => hx k hk) (by omega)]
+  unfold dAt
+  simp only [if_true]
+  exact d1_exact_two a0 b0 x0 _ hh _
+
+/-- … second derivative on a run of exactly three cells: exact for polynomials of degree ≤ 2 -/
+theorem diff_exact_run_d2_three (f g : Fld) (ax : Nat) (h : diff f ax 2 true = .ok g)
+    (hopen : periodicAx f ax = false) (i : List Nat) (c : Nat) (hc : c < f.nvdim) (hi : i.getD ax 0 < f.mesh.nAt ax)
+    (hv : f.valid.line ax i (i.getD ax 0) = true) (hh : f.mesh.cellAt ax ≠ 0)
+    (hlen : runBefore (fun j => f.valid.line ax i j) (i.getD ax 0)
+        + runFrom (fun j => f.valid.line ax i j) (f.mesh.nAt ax) (i.getD ax 0) = 3)
+    (a0 b0 c0 x0 : Rat)
+    (hx : ∀ k, k < 3 →
+        (f.data.line ax i (i.getD ax 0 - runBefore (fun j => f.valid.line ax i j) (i.getD ax 0) + k)).getD c 0
+          = a0 + b0 * (x0 + (k : Rat) * f.mesh.cellAt ax) + c0 * (x0 + (k : Rat) * f.mesh.cellAt ax) ^ 2) :
+    (g.data.get i).getD c 0 = 2 * c0 := by
+  rw [diff_refines_spec f g ax 2 h hopen i c hc hi]
+  unfold diffSpec
+  beta_reduce
+  rw [hv, hlen]
+  simp only [if_true]
+  have hpos : 0 < runFrom (fun j => f.valid.line ax i j) (f.mesh.nAt ax) (i.getD ax 0) := by
+    unfold runFrom
+    have : f.mesh.nAt ax - i.getD ax 0 = (f.mesh.nAt ax - i.getD ax 0 - 1) + 1 := by omega
+    rw [this]; simp only [runFromAux, hv, if_true]; omega
+  rw [dAt_congr 2 _ _ _ _ _ (fun k hk => hx k hk) (by omega)]
+  unfold dAt
+  simp only [show ¬ ((2 : Nat) = 1) by omega, if_false]
+  exact d2_exact_three a0 b0 c0 x0 _ hh _
+
+/-- … and the second derivative along a fully valid periodic line is the centred second difference
+with wrap-around -/
+theorem diff_periodic_centred_d2 (f g : Fld) (ax : Nat) (h : diff f ax 2 true = .ok g)
+    (hper : periodicAx f ax = true) (i : List Nat) (c : Nat) (hc : c < f.nvdim) (hi : i.getD ax 0 < f.mesh.nAt ax)
+    (hv : ∀ j, j < f.mesh.nAt ax → f.valid.line ax i j = true) :
+    (g.data.get i).getD c 0
+      = ((f.data.line ax i ((i.getD ax 0 + 1) % f.mesh.nAt ax)).getD c 0
+          - 2 * (f.data.line ax i (i.getD ax 0 % f.mesh.nAt ax)).getD c 0
+          + (f.data.line ax i ((i.getD ax 0 + f.mesh.nAt ax - 1) % f.mesh.nAt ax)).getD c 0)
+        / (f.mesh.cellAt ax * f.mesh.cellAt ax) := by
+  rw [diff_cell f g ax 2 true h i c hc]
+  unfold periodicAx at hper
+  rw [hper]
+  unfold diffLine'
+  simp only [if_true]
+  have e : lineCells f ax i c = (tab (f.mesh.nAt ax) fun j => (f.data.line ax i j).getD c 0).map (·, true) := by
+    unfold lineCells tab
+    rw [List.map_map]
+    apply List.map_congr_left
+    intro j hj
+    simp only [Function.comp, hv j (List.mem_range.mp hj)]
+  rw [e, ring_centred_d2 _ _ _ (by rw [tab_length]; exact hi)]
+  unfold ringVal
+  simp only [tab_length]
+  have hn : 0 < f.mesh.nAt ax := by omega
+  rw [getD_tab _ _ _ _ (Nat.mod_lt _ hn), getD_tab _ _ _ _ (Nat.mod_lt _ hn), getD_tab _ _ _ _ (Nat.mod_lt _ hn)]
+
 /-! ## Non-vacuity: concrete instances of the hypotheses -/
 
 /-- a 2-d field (5×2 cells, two components, one invalid cell, all directions open) whose derivative
@@ -833,5 +1010,24 @@ example : (([((7 : Rat), true), (1, true), (4, true)]) ++ (9, false) :: [(2 : Ra
 `[1,0,1,1,0]` cell 2 has no valid cell before it and a run of two from it on -/
 example : runBefore (okOf [((1 : Rat), true), (2, false), (3, true), (4, true), (5, false)]) 2 = 0 ∧
     runFrom (okOf [((1 : Rat), true), (2, false), (3, true), (4, true), (5, false)]) 5 2 = 2 := by decide
+
+/-- the hypotheses of `diff_exact_run_d1` are met by `exF` at cell (1,0) along axis 0 (run of five
+valid cells, component 0 samples `x²` with `x = k·h`, `h = 1`): the stored derivative there is `2·x = 2` -/
+example : ∃ g, diff exF 0 1 true = .ok g ∧ (g.data.get [1, 0]).getD 0 0 = 2 := by
+  refine ⟨_, rfl, ?_⟩
+  have hc : exF.mesh.cellAt 0 = 1 := by
+    simp [Mesh.cellAt, Mesh.nAt, exF, Region.edge, Region.hi, Region.lo]
+  have := diff_exact_run_d1 exF _ 0 rfl (by decide) [1, 0] 0 (by decide) (by decide) (by decide) (by rw [hc]; norm_num)
+    (by decide) 0 0 1 0 (by
+      intro k hk
+      have h5 : runBefore (fun j => exF.valid.line 0 [1, 0] j) ([1, 0].getD 0 0)
+          + runFrom (fun j => exF.valid.line 0 [1, 0] j) (exF.mesh.nAt 0) ([1, 0].getD 0 0) = 5 := by decide
+      rw [h5] at hk
+      rw [hc]
+      have : k = 0 ∨ k = 1 ∨ k = 2 ∨ k = 3 ∨ k = 4 := by omega
+      rcases this with rfl | rfl | rfl | rfl | rfl <;> simp [exF, NDA.line, setAt, runBefore] <;> norm_num)
+  rw [this, hc]
+  have h1 : runBefore (fun j => exF.valid.line 0 [1, 0] j) ([1, 0].getD 0 0) = 1 := by decide
+  rw [h1]; norm_num
 
 end DFV.C04
